@@ -96,6 +96,10 @@ func runC03(r *Run) {
 	checkAdd(r, ad, le, add, wl, rawF, lenF, attrsF)
 	ad.Done()
 
+	al := r.Rule("C03.alias", "no byte of the message is written through a view of Raw that was taken before a later grow (or append onto Raw): after a reallocation such a view points into the old array and the bytes never reach the message", 2)
+	checkStaleViews(r, al, []*ssa.Function{add, wh}, grow, rawF)
+	al.Done()
+
 	pz := r.Rule("C03.padzero", "the padding bytes newly exposed by Add are all set to zero before the buffer is extended over them", 1)
 	checkPadZero(r, pz, le, add, grow, rawF)
 	pz.Done()
@@ -258,6 +262,8 @@ func runC03(r *Run) {
 
 	// ---- decode side of the type bits (shared with C19.read): struct and wire agree in both directions
 	r.Borrow("C19", map[string]string{"C19.read": "C03.typeread"})
+	// ---- what the builder writes must decode again: Decode's reject conditions are exactly the framing's
+	r.Borrow("C02", map[string]string{"C02.guards": "C03.decodeguards"})
 
 	// ---- re-encoding keeps the attribute list in step with the bytes
 	en := r.Rule("C03.encode", "WriteAttributes re-adds the saved attributes into the same backing array it restores afterwards: the list is truncated with a two-index reslice of the saved list (no capacity clamp, no fresh list), so the entries Add wrote (lengths, views into the new Raw) are the ones visible after Encode", 1)
@@ -738,5 +744,71 @@ func checkValueBits(r *Run, rc *RuleCtx) {
 				rc.Violation(valueFn, instrPos(ret), fmt.Sprintf("wire bit %d", i), fmt.Sprintf("Value() bit %d is %s, RFC 5389 fig.3 requires %v%v", i, bv[i], want[0], want[1]))
 			}
 		}
+	}
+}
+
+// checkStaleViews: C03.alias.
+func checkStaleViews(r *Run, rc *RuleCtx, fns []*ssa.Function, grow *ssa.Function, rawF *types.Var) {
+	for _, fn := range fns {
+		if fn == nil {
+			continue
+		}
+		r.Analysed(fn)
+		// growth points: calls of grow, stores of an append result into Raw
+		var grows []ssa.Instruction
+		eachInstr(fn, func(b *ssa.BasicBlock, i int, in ssa.Instruction) {
+			if callsFn(in, grow) {
+				grows = append(grows, in)
+			}
+			if s, ok := in.(*ssa.Store); ok {
+				if fa, isFA := s.Addr.(*ssa.FieldAddr); isFA && fieldOfAddr(fa) == rawF {
+					if c, isC := s.Val.(*ssa.Call); isC && isBuiltinCall(c, "append") {
+						grows = append(grows, in)
+					}
+				}
+			}
+		})
+		rootLoad := func(v ssa.Value) *ssa.UnOp {
+			for i := 0; i < 8; i++ {
+				switch x := v.(type) {
+				case *ssa.Slice:
+					v = x.X
+					continue
+				case *ssa.ChangeType:
+					v = x.X
+					continue
+				case *ssa.UnOp:
+					if x.Op == token.MUL {
+						if _, f := addrField(x.X); f == rawF {
+							return x
+						}
+					}
+				}
+				return nil
+			}
+			return nil
+		}
+		n := 0
+		eachInstr(fn, func(b *ssa.BasicBlock, i int, in ssa.Instruction) {
+			dst := byteWriteDst(in)
+			if dst == nil {
+				return
+			}
+			ld := rootLoad(dst)
+			if ld == nil {
+				return
+			}
+			n++
+			for _, g := range grows {
+				if g == in || g == ssa.Instruction(ld) {
+					continue
+				}
+				if reachableFrom(ld, g) && reachableAvoid(g, in, ld) {
+					rc.Violation(fn, instrPos(in), "write through "+exprDepth(dst, 0), "this view of Raw was taken before the buffer is grown again at "+r.P.pos(instrPos(g))+": if that growth reallocates, the bytes are written into the old array and the message keeps zeros or stale data there")
+					return
+				}
+			}
+		})
+		rc.Instance(fnName(fn), true, map[string]int{"byte_writes_into_Raw": n, "growth_points": len(grows)})
 	}
 }
